@@ -3,7 +3,8 @@
 From InfOCF Require Import Core Tol SysW Form Model Spec ThmOps ThmTop.
 From InfOCFProps Require Import Ex.
 From InfOCF Require Import PyLib TieSolver TieMax TieLayer TieW TieWTop.
-From InfOCFGen Require Import SrcW.
+From InfOCFGen Require Import SrcW SrcWZ3.
+From InfOCF Require Import TieZ3 TieWZ3.
 From Coq Require Import ZArith.
 
 Theorem C03_system_w_is_preferred_structure : forall n D q P, D <> [] -> part_strict n D = Some P ->
@@ -42,6 +43,23 @@ Theorem C03_source_code_is_preferred_structure : forall n D, NoDup (map kz D) ->
     (trivial n q || b) = w_spec (worlds n) P q.
 Proof. exact src_w_strict_spec. Qed.
 Print Assumptions C03_source_code_is_preferred_structure.
+
+(* SOURCE TIE, the alternative back-end.  py_SystemWZ3_inference, _rec_inference and get_all_xi_i are GENERATED on every run
+   from /repo's system_w_z3.py (coq/gen/SrcWZ3.v; Conditional_z3's methods from conditional_z3.py).  z3's Optimize is
+   modelled by PyLib.zopt (check() decides the hard assertions, model() returns a best model).  For every partition whose
+   layers have distinct keys the generated function returns the model's answer; the enumeration loop returns exactly the
+   inclusion-minimal falsification sets within one round per world, and every call restores the optimiser (push/pop). *)
+Theorem C03_source_z3_backend_is_model : forall n q Pc, (forall L, In L Pc -> NoDup (map ckz L)) -> forall weakly u, Pc <> [] ->
+  py_SystemWZ3_inference n (S (length Pc + length (worlds n) + 1)) Pc q weakly u
+  = Return (if weakly then w_ext n (acP Pc) q else w_strict n (acP Pc) q).
+Proof. exact tie_wz3_inference. Qed.
+Print Assumptions C03_source_z3_backend_is_model.
+Theorem C03_source_z3_enumeration_is_minimal_family : forall n part, NoDup (map ckz part) -> forall opt, o_soft opt = [] ->
+  forall fuel, length (worlds n) < fuel -> exists R opt',
+  py_SystemWZ3_get_all_xi_i n fuel opt part = Return (R, opt') /\ o_pop opt' = o_pop opt /\
+  (forall xi, In xi R <-> exists x, In x (minimal (Core.fam world (worlds n) (gH opt) (gF part) (top world))) /\ xi = gsel part x).
+Proof. exact gax_spec. Qed.
+Print Assumptions C03_source_z3_enumeration_is_minimal_family.
 
 Example birds_w : map (infer 4 SysW false birds) [q_fp; q_nfp; q_wp] = [Ans false; Ans true; Ans true].
 Proof. vm_compute. reflexivity. Qed.
